@@ -160,6 +160,19 @@ def check_path(case, ctx):
                 raise Violation("C01/path/raised", "derive_path(%r) on a temporary root raised %r" % (path, lone))
             compare_node("C01/derive_path-temporary-root", "derive_path(%s) from a %s root that is not kept alive"
                          % (R.fmt_path(path), form), lone, refs[-1], p["testnet"])
+        # the caller's list object is left alone and can be used again
+        if path:
+            shared = list(path)
+            r1 = dict(impl_parents(p))[form]
+            call(r1.derive_path, shared)
+            if shared != list(path):
+                raise Violation("C01/derive_path/argument-mutated", "derive_path changed the caller's index list %r -> %r"
+                                % (list(path), shared))
+            st_, again = call(dict(impl_parents(p))[form].derive_path, shared)
+            if st_ == "exc":
+                raise Violation("C01/path/raised", "second derive_path with the same list raised %r" % (again,))
+            compare_node("C01/derive_path-list-reused", "derive_path(%s) with a list object used before" % R.fmt_path(path),
+                         again, refs[-1], p["testnet"])
         # derive_path on a fresh root gives the same end node
         fresh = dict(impl_parents(p))[form]
         st_, end = call(fresh.derive_path, list(path))
@@ -193,7 +206,7 @@ def prf_il(case):
 
 
 def check_prf(case, ctx):
-    p, i = case["parent"], case["i"]
+    p, i = dict(case["parent"], c=S.case_salt(case)), case["i"]
     il = prf_il(case)
     out = il.to_bytes(32, "big") + case["ir"]
     rp = ref_parent(p)
